@@ -16,7 +16,7 @@ CHECKS = {
             "on a model of AdaptiveForceBias.update_delta/getters/tanh_update/exp_update, tied to the code by real update_delta() runs with prescribed committee arrays and a v-sweep 0..1e300",
             "§6 C18", "Lean 4 real-analysis theorems (closed forms, Antitone, Filter.Tendsto) + differential correspondence with the real class (Float instance, 1e-12) + oracle on real step()",
             "theorems over the reals: rounding at the anchors / float saturation not covered; zero-force coordinate gives 0/0 = nan (outside 'finite variance'); numpy summation orders mirrored; ForceBias.step itself is C13"),
-    "C10": ("proof: Lean theorems over the reals for all step sizes/strains/cells/groups/masks/draws (ball_norm, sphere_norm, box_bounds, translation_centroid/uniform, rotation_rigid/keeps_com, quat_rotation, composite_sum, iso_scalar_identity, shape_det_one, deform_spd, mask_identity, *_symm incl. measure-preserving reparametrisations) on a hand-written model of every calculate(), tied to the code by scripted-generator correspondence on real contexts + oracles with PCG64",
+    "C10": ("proof: Lean theorems over the reals for all step sizes/strains/cells/groups/masks/draws (ball_norm, sphere_norm, box_bounds, translation_centroid/uniform, rotation_rigid/keeps_com, quat_rotation, composite_sum, iso_scalar_identity, shape_det_one, deform_spd, mask_identity, *_symm incl. measure-preserving reparametrisations; moveLoop_mem/moveLoop_bound/ball_move_norm: whatever check_move vetoes, the displacement a DisplacementMove finally applies is ONE proposal, so every bound carries over) on a hand-written model of every calculate() and of the move's retry loop, tied to the code by scripted-generator correspondence on real contexts + oracles with PCG64",
             "§6 C10", "Lean 4 + Mathlib (NormedSpace.exp, spectral theorem, measure theory) + differential correspondence with a scripted numpy Generator + 3-seed odd-moment symmetry tests",
             "matrix exponential is a model parameter (NormedSpace.exp in proofs / Taylor Float in driver / scipy in code, compared at 1e-7); Haar-uniformity of the normalised Gaussian quaternion assumed; first-clause deformation claims read with the default mask"),
     "C02": ("proof: Lean theorems over the reals (accept_iff_min, canonical/hamiltonian/isobaric/isotension_textbook, isotension_hydrostatic, gc_prefactor_closed, gc_insert/delete_textbook, debroglie_def, evaluate_total, favourable_accepted, setter_next_trial_*) on a Num-generic model of every criteria.evaluate; tied to the code by decisions of the real evaluate on real contexts at uniform numbers 1e-6 either side of the textbook threshold",
